@@ -10,6 +10,10 @@ mod c_bits;
 #[cfg(kani)]
 mod c_grid;
 #[cfg(kani)]
+mod c_coding;
+#[cfg(kani)]
+mod c_modular;
+#[cfg(kani)]
 mod c_image;
 #[cfg(kani)]
 mod c_container;
